@@ -38,8 +38,9 @@ CHECKS = {
         "out-of-band or Nyquist basis vector e the pair (v, v+e) must give the same output. The oracle evaluates the documented continuous operator on "
         "a zero-padded grid with 2dK+1 points (no aliasing possible) and truncates to the documented band, so values inside and zeros outside the band "
         "are both decided. Dense ternary lattices and full-band superpositions cross-probe the polynomial assumption.",
-        "Trusted: the fine-grid oracle and band formula in mc/ref.py + mc/props/C03.py (numpy only). Bounds: N ranges in evidence.bounds; lattices larger "
-        "than 12k states (quick) / 700k states (thorough) are skipped (3D with K>=2 multi-channel); L and scale rotate through their lattices with N in quick.",
+        "Trusted: the fine-grid oracle and band formula in mc/ref.py + mc/props/C03.py (numpy only). Bounds: N ranges in evidence.bounds (thorough: 1D 6..29, 2D 6..17, 3D 6..10, "
+        "cubic 3D 8..11); lattices larger than 12k states (quick) / 700k states (thorough) are skipped (3D with K>=2 multi-channel); L and scale rotate through "
+        "their lattices with N in quick; quadratic terms are also run with the 1/2 fraction so that the fraction argument is honoured.",
         "DESIGN.md §4 C03",
     ),
     "C04": (
@@ -47,7 +48,7 @@ CHECKS = {
         "Every wavevector k of the N^D grid (all sign combinations, DC, every Nyquist combination) is turned into a single-mode field on the library's "
         "grid and pushed through fft, the three scaling arrays, get_fourier_coefficients, derivative, make_incompressible, masks and mode blocks, for "
         "both meshgrid indexings; expected values come from explicit DFT sums and the documented semantics. ifft(fft(.)) is applied to every grid "
-        "delta, which by linearity covers every real state. Exhaustive within the bounds on N (1D 2..16, 2D 2..8, 3D 2..5; thorough 24/12/8).",
+        "delta, which by linearity covers every real state. Exhaustive within the bounds on N (1D 2..16, 2D 2..8, 3D 2..5; thorough 24/12/8). A separate wide scan (every N up to 260, thorough 520, in 1D and the small / special ones in 2D) checks the integer-valued helpers: exact integer wavenumbers, every integer low-pass cutoff, oddball mask, scaling rule, coefficient read-off - this scan found the non-integer wavenumbers of N = 49, 98, 103, ... in x64 sessions.",
         "Trusted: explicit DFT sums and layout rule in mc/ref.py, numpy. N beyond the bounds is not covered.",
         "DESIGN.md §4 C04",
     ),
@@ -98,7 +99,7 @@ CHECKS = {
         "every real Fourier basis function incl. Nyquist/out-of-band modes, and superpositions; the per-channel mean must not move in any visited "
         "state; the k=0 coefficient of every conservation-form term vanishes on the simplex lattice of the basis (polynomial lift => all states). "
         "(b) <u,N(u)>, <psi,N(omega)>, <omega,N(omega)> are cubic forms evaluated on the complete lattice Lambda_3 of the basis up to one mode beyond "
-        "the documented band (=> all band-limited states, and a too-wide band is caught). (c) every constant root of the reaction/convection "
+        "the documented band (=> all band-limited states, and a too-wide band is caught; in 3D the rotational form uses Lambda_3 inside the band and Lambda_2 on the extended band). (c) every constant root of the reaction/convection "
         "right-hand sides x orders 1-4 x dt x 4-step chains must be a fixed point.",
         "Trusted: closed-form roots, own solenoidal projector. Carve-outs forced by the mathematics are listed in evidence.assumptions (forms that "
         "conserve the mean, divergence-free states for the 3D forms, drag=0).",
@@ -145,7 +146,8 @@ CHECKS = {
     "C14": (
         "bounded exhaustive exploration of the option product, lock-step with a plain-loop reference model",
         "Every (n, include_init, takes_aux, constant_aux, pytree shape, aux shape) combination up to the bound, every window (T, sub_len), "
-        "every (inner stepper family, order, n_sub, entry point) is executed on the real lax.scan code and compared entry by entry with a "
+        "every (inner stepper family incl. 2D/3D, order, n_sub from 0, entry point, Nyquist-free and - for even-order inner steppers - white-noise-like states) is "
+        "executed on the real lax.scan code and compared entry by entry with a "
         "Python-loop model; integer bookkeeping steppers make the comparison exact. Exhaustive inside the bounds, which is the right level for "
         "scan bookkeeping whose behaviour depends only on these discrete options.",
         "Trusted: the reference loops (mc/props/C14.py), numpy, JAX itself. Bounds: n<=6 (10 thorough), T<=7 (11), n_sub<=4 (7).",
@@ -196,7 +198,9 @@ CHECKS = {
         "imaginary axis and left-half-plane rays) with three user-defined nonlinear terms, an O(1) state and the zero state, and every catalogue stepper x "
         "order 0-4 x smooth states + zero state. The parent checks finiteness, that results carry the session's default precision (real and Fourier "
         "space), zero -> zero for unforced equations, agreement of the two sessions within 400*eps32*(1+|lambda dt|)*scale, and - in the x64 session - "
-        "that the step does not lose double precision in its transforms (cross-check with numpy float64 FFTs).",
+        "that the step does not lose double precision in its transforms (cross-check with numpy float64 FFTs) and that every precomputed array leaf of the "
+        "stepper carries the session precision. A wide N scan requires all discrete decisions (wavenumber layout, dealiasing / low-pass / oddball masks, "
+        "scaling classes) to be identical in both sessions.",
         "Trusted: numpy FFT for the x64 cross-check. For |z| > 1e3 only finiteness/dtype are claimed (single-precision rounding of z itself changes the phase). "
         "Double-precision fidelity of step_fourier is decided by C02.",
         "DESIGN.md §4 C19",
